@@ -42,7 +42,7 @@ static std::string canon(bool sizes, bool sortX, bool blocks = true, bool sortD 
 		if (e.kind == 'U') continue;
 		if (e.kind == 'X') { xrun.push_back(O(e.a)); continue; }
 		if ((e.kind == 'A' || e.kind == 'D') && !blocks) continue;
-		if (e.kind == 'D' && sortD) { flush(); drun.push_back(B(e.b)); continue; }
+		if (e.kind == 'D' && sortD) { drun.push_back(B(e.b)); continue; }      // a tear-down: all X first, then all D, each sorted
 		flush(); flushD();
 		switch (e.kind)
 		{
@@ -225,6 +225,25 @@ static void run_sa(size_t n, long c)
 	printf("%s%s", thrown ? "exc" : "val", canon(false, true, false).c_str());
 }
 
+// SegmentedArray(begin, end, memManager) with 4 items per segment INCLUDING its pointer array: block and element events, sizes,
+// the k-th fallible step (allocation of a segment, allocation of a pointer array, element copy) failing
+static void run_sa2(size_t n, long k)
+{
+	typedef kit::ElemNtm E;
+	typedef SegmentedArray<E, kit::MM, SegmentedArrayItemTraits<E, kit::MM>,
+		SegmentedArraySettings<SegmentedArrayItemCountFunc::cnst, 2>> SA;
+	bool thrown = false;
+	{
+		std::vector<E> srcv; srcv.reserve(n);
+		for (size_t i = 0; i < n; ++i) srcv.emplace_back(int64_t(100 + i));
+		window_begin(k);
+		try { SA a(srcv.begin(), srcv.end(), kit::MM(1)); kit::W().disarm(); }
+		catch (const std::exception&) { thrown = true; }
+		window_end();
+	}
+	printf("%s%s", thrown ? "exc" : "val", canon(true, true, true, true).c_str());
+}
+
 // HashSet growth: n insertions; prints for every insertion whether a new generation of buckets was created (probe), or
 // (flags given) the sequence of element event KINDS with the c-th element copy failing
 template<class E> static void run_grow(const std::string& flags, size_t n, long c, bool probe)
@@ -395,6 +414,7 @@ int main()
 		else if (cmd == "tsnprobe") { size_t n; is >> n; run_tsn(n, "", -1, true); }
 		else if (cmd == "tsn") { size_t n; std::string shape; long j; is >> n >> shape >> j; run_tsn(n, shape, j, false); }
 		else if (cmd == "growa") { size_t n; long c; is >> cat >> n >> c; if (cat == "ntm") run_growa<kit::ElemNtm>(n, c); else run_growa<kit::ElemCpo>(n, c); }
+		else if (cmd == "sa2") { size_t n; long k; is >> n >> k; run_sa2(n, k); }
 		else if (cmd == "sa") { size_t n; long c; is >> n >> c; run_sa(n, c); }
 		else if (cmd == "growprobe") { size_t n; is >> cat >> n; if (cat == "ntm") run_grow<kit::ElemNtm>("", n, -1, true); else run_grow<kit::ElemCpo>("", n, -1, true); }
 		else if (cmd == "grow")
